@@ -88,7 +88,7 @@ def R(n=3):
 
 
 def W3():
-    return odl.rn(3, weighting=2.0)
+    return odl.rn(3, weighting=4.0)
 
 
 def A3():
@@ -104,7 +104,7 @@ def CW2():
 
 
 def D3():
-    return odl.uniform_discr(0, 1.5, 3)
+    return odl.uniform_discr(0, 0.75, 3)        # cell side 1/4 (sqrt exact)
 
 
 def D23():
@@ -394,9 +394,9 @@ recipe('Resizing/2d', [DISC + 'ResizingOperator'], linear=True, deriv=True)(
 recipe('Resizing/affine', [DISC + 'ResizingOperator'], deriv=False)(
     lambda ctx: odl.ResizingOperator(D3(), ran_shp=(5,), pad_const=ctx.real('c', nonzero=True)))
 recipe('Resampling/nearest', [DISC + 'Resampling'], linear=True, exempt_adjoint=True)(
-    lambda ctx: odl.Resampling(D3(), odl.uniform_discr(0, 1.5, 6), interp='nearest'))
+    lambda ctx: odl.Resampling(D3(), odl.uniform_discr(0, 0.75, 6), interp='nearest'))
 recipe('Resampling/linear', [DISC + 'Resampling'], linear=True, exempt_adjoint=True)(
-    lambda ctx: odl.Resampling(D3(), odl.uniform_discr(0, 1.5, 2), interp='linear'))
+    lambda ctx: odl.Resampling(D3(), odl.uniform_discr(0, 0.75, 2), interp='linear'))
 
 
 # ---------------------------------------------------------------- ufunc ops
